@@ -964,12 +964,21 @@ class Flow(NLRI):
         Returns what is left of the payload.
         """
         end: int = 0
+        first = True
+        # RFC 8955 4.2.1.1 / 4.2.1.2: bit 4 (numeric) and bits 4-5 (bitmask) of the operator are
+        # reserved, "MUST be set to 0 on NLRI encoding and MUST be ignored during decoding"
+        reserved = 0x0C if issubclass(klass, BinaryString) else 0x08 if issubclass(klass, NumericString) else 0x00
         while not end:
             if not bgp:
                 raise Notify(3, 10, 'flow component %d ends without its end of list operator' % what)
             byte, bgp = bgp[0], bgp[1:]
             end = CommonOperator.eol(byte)
-            operator = CommonOperator.operator(byte)
+            operator = CommonOperator.operator(byte) & ~reserved
+            if first:
+                # "the AND bit ... MUST be encoded as unset in the first operator of a component and
+                # MUST be treated as always unset on decoding" (there is nothing before it to AND with)
+                operator &= ~CommonOperator.AND
+                first = False
             length = CommonOperator.length(byte)
             # RFC 8955 section 4.2.1.1: the operator's length field says how many bytes the
             # value takes, and a sender may use any of the four. VALUE_SIZES says what this
